@@ -244,3 +244,10 @@ def run(ctx: Ctx, rep: Report, tier: str):
     rep.rule("C02.R11", "the definitions the destructive arms are guarded with: is_creation (a pending creation is never deleted under) and is_deletion", 2)
     definition_holds(ctx, rep, "C02.R11", "SyncEntry.is_creation", "the guard 'the other side holds a pending creation' no longer means that: a delete can win over a new file")
     definition_holds(ctx, rep, "C02.R11", "SyncEntry.is_deletion", "a side that is not deleted is treated as deleted (its peer is removed), or a real delete is not propagated")
+    from rules.common import creation_dispatch
+    rep.rule("C02.R12", "a new object reaches the peer without overwriting anything: create_synced / mkdir_synced only for a creation and only after check_disjoint_create "
+             "found no clash; a file only after its content was downloaded; handle_rename only for a non-creation", 4)
+    creation_dispatch(ctx, rep, "C02.R12")
+    from rules.common import uploads_read_the_changed_sides_download
+    rep.rule("C02.R13", "the peer is overwritten / created with the changed side's current bytes (C03.R12), never with the synced side's own temp file or a stale download", 5)
+    uploads_read_the_changed_sides_download(ctx, rep, "C02.R13")
